@@ -27,8 +27,11 @@ def generate(api):
     for pat, what in [(r'ScalarValue::Int64\(i\) => format!\("i64:\{\}", i\)', "i64 key"), (r'ScalarValue::Timestamp\(ts\) => format!\("ts:\{\}", ts\)', "ts key"), (r'ScalarValue::Utf8\(s\) => format!\("str:\{\}", s\)', "str key")]:
         api.grab(g, pat, rel, what)
     # time of a row: i64 view cast to u64, 0 when unreadable; stable sort by it
-    m = api.grab(g, r"\.get_i64_at\(&self\.time_field, row_index\.row_idx\)\s*\.map\(\|ts\| ts as u64\)\s*\.unwrap_or\((\d+)\)", rel, "get_timestamp fallback")
-    out.append(f"def missingTs : Nat := {api.num(m.group(1))}")
+    # (since fix 0bad566 the i64 is compared as it is; a reappearing `as u64` cast breaks the tie)
+    m = api.grab(g, r"fn get_timestamp\(&self, zones: &\[CandidateZone\], row_index: &RowIndex\) -> i64 \{[\s\S]*?\.get_i64_at\(&self\.time_field, row_index\.row_idx\)\s*\.unwrap_or\((\d+)\)", rel, "get_timestamp (i64, fallback)")
+    out.append(f"def missingTs : Int := {api.num(m.group(1))}")
+    if re.search(r"ts as u64", g):
+        raise api.Missing(f"{rel}: time value cast to u64 again")
     api.grab(g, r"timestamped_indices\.sort_by_key\(\|\(ts, _\)\| \*ts\)", rel, "stable sort by timestamp")
     rel = "src/engine/core/read/sequence/matcher.rs"
     t = api.src(rel)
@@ -39,17 +42,26 @@ def generate(api):
     api.grab(fb, r"if ts_b >= ts_a \{", rel, "followed-by relation")
     api.grab(fb, r"where_failed \+= 1;[\s\S]*?\}\s*\}\s*a_ptr \+= 1;\s*\} else \{[\s\S]*?b_ptr \+= 1;", rel, "followed-by pointer moves")
     out.append("/-- `if ts_b >= ts_a` -/")
-    out.append("def followedCand (tsA tsB : Nat) : Bool := decide (tsA ≤ tsB)")
+    out.append("def followedCand (tsA tsB : Int) : Bool := decide (tsA ≤ tsB)")
     # PRECEDED BY: candidate iff ts_b < ts_a; inner advance while next b < ts_a; a_ptr += 1, b_ptr = latest; else b_ptr += 1
     api.grab(pb, r"if ts_b < ts_a \{", rel, "preceded-by relation")
     api.grab(pb, r"if ts_next_b < ts_a \{\s*latest_b_ptr \+= 1;\s*\} else \{\s*break;", rel, "preceded-by inner advance")
-    api.grab(pb, r"a_ptr \+= 1;[\s\S]*?b_ptr = latest_b_ptr;\s*\} else \{[\s\S]*?b_ptr \+= 1;", rel, "preceded-by pointer moves")
+    # since fix e929a74 the else branch moves to the next a (b_ptr stays)
+    m = api.grab(pb, r"a_ptr \+= 1;[\s\S]*?b_ptr = latest_b_ptr;\s*\} else \{([\s\S]*?)\}\s*\}", rel, "preceded-by pointer moves")
+    else_code = re.sub(r"//[^\n]*", "", m.group(1))
+    if not re.fullmatch(r"\s*a_ptr \+= 1;\s*", else_code):
+        raise api.Missing(f"{rel}: else branch of match_preceded_by is not `a_ptr += 1;`: {else_code.strip()!r}")
     out.append("/-- `if ts_b < ts_a` (also the inner `ts_next_b < ts_a`) -/")
-    out.append("def precededCand (tsA tsB : Nat) : Bool := decide (tsB < tsA)")
+    out.append("def precededCand (tsA tsB : Int) : Bool := decide (tsB < tsA)")
     # time read in the matcher: same cast and fallback
-    m = api.grab(t, r"\.get_i64_at\(&self\.time_field, row_index\.row_idx\)\s*\.map\(\|ts\| ts as u64\)\s*\.unwrap_or_else\(", rel, "matcher get_timestamp cast")
+    api.grab(t, r"fn get_timestamp\(&self, zones: &\[CandidateZone\], row_index: &RowIndex\) -> i64 \{[\s\S]*?\.get_i64_at\(&self\.time_field, row_index\.row_idx\)\s*\.unwrap_or_else\(", rel, "matcher get_timestamp (i64)")
+    if re.search(r"ts as u64", t):
+        raise api.Missing(f"{rel}: time value cast to u64 again")
     # groups: earliest = u64::MAX start, min over first rows, stable sort, limit checks
-    api.grab(t, r"let mut earliest_ts = u64::MAX;", rel, "earliest start")
+    api.grab(t, r"let mut earliest_ts = i64::MAX;", rel, "earliest start")
+    api.grab(t, r"earliest_ts = earliest_ts\.min\(ts\);", rel, "earliest min")
+    out.append("/-- `i64::MAX`: earliest time of a group none of whose first rows has a readable time -/")
+    out.append("def earliestStart : Int := 9223372036854775807")
     api.grab(t, r"groups_with_timestamps\.sort_by_key\(\|\(ts, _, _\)\| \*ts\)", rel, "group sort")
     api.grab(t, r"if all_matches\.len\(\) >= lim \{\s*all_matches\.truncate\(lim\);", rel, "limit truncate")
     return "\n".join(out) + "\n"
